@@ -35,6 +35,8 @@ def conc(p):
         return bytes.fromhex(s[2:]).decode() if s.startswith('u:') else STRINGS.get(s, s)
     if k == 'bool':
         return p['b']
+    if k == 'special':      # what json.loads makes of the tokens NaN / Infinity / -Infinity / 1e999
+        return json.loads(SPECIAL_TOKENS[p['s']])
     if k == 'null':
         return None
     if k == 'list':
@@ -42,6 +44,32 @@ def conc(p):
     if k == 'obj':
         return {e['key']: conc(e['val']) for e in p['kv']}
     raise MachineryError(f'unknown abstract value {p!r}')
+
+
+SPECIAL_TOKENS = {'nan': 'NaN', 'pinf': 'Infinity', 'ninf': '-Infinity', 'huge': '1e999'}
+
+
+def wire_text(p):
+    """abstract payload -> the JSON text a client would put on the wire (non-finite numbers as the tokens
+    Python's json module - which frappy's decode_msg uses - accepts)"""
+    k = p['k']
+    if k == 'special':
+        return SPECIAL_TOKENS[p['s']]
+    if k == 'list':
+        return '[' + ', '.join(wire_text(x) for x in p['xs']) + ']'
+    if k == 'obj':
+        return '{' + ', '.join(json.dumps(e['key']) + ': ' + wire_text(e['val']) for e in p['kv']) + '}'
+    return json.dumps(conc(p))
+
+
+def abs_special(x):
+    """nan / +-inf -> the abstract non-finite number, None for anything else"""
+    if isinstance(x, float):
+        if x != x:
+            return {'k': 'special', 's': 'nan'}
+        if x in (float('inf'), float('-inf')):
+            return {'k': 'special', 's': 'pinf' if x > 0 else 'ninf'}
+    return None
 
 
 def internal(dt, p):
@@ -370,7 +398,7 @@ def _feature(name):
 
 FEATURE_ACCS = {       # the accessibles a feature brings along, in the vocabulary of the shapes (= Describe.tla FeatAccs)
     'VFeatA': ('fa', {'t': 'int', 'lo': 0, 'hi': 8}, {'k': 'num', 'n': 3}),
-    'VFeatB': ('fb', {'t': 'string', 'minc': 0, 'maxc': 3, 'utf8': False}, {'k': 'str', 's': 'ab', 'len': 2, 'ascii': True}),
+    'VFeatB': ('fb', {'t': 'string', 'minc': 0, 'maxc': 3, 'utf8': False}, {'k': 'str', 's': 'ab', 'len': 2, 'ascii': True, 'b64': -1}),
     'HasOffset': ('offset', {'t': 'double', 'lo': -10 ** 6, 'hi': 10 ** 6}, {'k': 'num', 'n': 0}),
 }
 
@@ -597,7 +625,11 @@ class World:
             del m.vlog[:]
         del self.conn.msgs[:]
         spec = f"{req['mod']}:{req['name']}" if req['name'] else req['mod']      # bare module: target / value
-        rep = handle(self.srv.dispatcher, self.conn, (req['act'], spec, conc(req['payload'])))
+        # through the real decoder of the request line (json.loads: NaN, Infinity, 1e999 arrive as floats)
+        from frappy.protocol.interface import decode_msg
+        line = f"{req['act']} {spec}" + ('' if req['payload'] == NULL else ' ' + wire_text(req['payload']))
+        msg = decode_msg(line.encode('utf-8'))
+        rep = handle(self.srv.dispatcher, self.conn, msg)
         a, acc = self.acc_by_wire(req['mod'], wire_of(req))
         obs = {'value': NULL}
         if rep[0].startswith('error_'):
@@ -692,6 +724,8 @@ def payload_class(p, cur=None, dt='none'):
         return 'list:longer' if len(p['xs']) > c > 0 else 'list'
     if k == 'obj':
         return 'obj:' + '+'.join(e['key'] for e in p['kv']) if dt == 'struct' else 'obj'
+    if k == 'special':
+        return 'special:' + p['s']
     return k
 
 
@@ -879,6 +913,10 @@ def rand_payload(rnd, dt):
         elif r < 0.75 and all(x['k'] in ('num', 'eps', 'frac') for x in xs):
             xs.sort(key=lambda x: 4 * x['n'] + {'num': 0, 'eps': 1, 'frac': 2}[x['k']])     # else: maybe inverted
         return {'k': 'list', 'xs': xs}
+    if t in ('int', 'double', 'scaled') and r > 0.93:      # NaN, Infinity, -Infinity, 1e999
+        if t == 'double' and max(abs(dt['lo']), abs(dt['hi'])) >= 10 ** 6:
+            return {'k': 'special', 's': 'nan'}            # (an unlimited double clamps +-inf: documented)
+        return {'k': 'special', 's': rnd.choice(['nan', 'nan', 'pinf', 'ninf', 'huge'])}
     if t == 'scaled':
         t = 'int'
     if t in ('int', 'double'):
